@@ -101,8 +101,11 @@ func init() {
 				res = append(res, c)
 			}
 			// local tier
-			for i := 0; i < env.Pick(160, 1500); i++ {
+			for i := 0; i < env.Pick(220, 1500); i++ {
 				nv := 12 + r.Intn(env.Pick(24, 49))
+				if i%2 == 0 { // many conflicts per run: learned binary clauses get reused as reasons
+					nv = 24 + r.Intn(env.Pick(16, 37))
+				}
 				clauses := gen.RandKSAT(r, nv, int(4.26*float64(nv)), 3)
 				cfg := gen.Cfg(true, []int{0, 4, 8}[r.Intn(3)], []int{0, 5}[r.Intn(2)], false, false, false)
 				c := gen.APICase("slicenb", nv, true, gen.ClauseCtors(clauses), false, nil, cfg, []gen.M{gen.Op("solve")})
